@@ -6,4 +6,5 @@ From Coq Require Import List String ZArith.
 From GG Require Import Base.Strs Model.Codes Model.IgnoreSet Extracted Exec.
 Extraction Language OCaml.
 Extraction "model.ml" x_all x_tokens_for x_is_run x_is_contains x_is_spec x_doc_url
-  x_truncate x_display_col x_window x_rep_format.
+  x_truncate x_display_col x_window x_rep_format
+  x_cfg_resolve x_cfg_from_env x_parse_bool x_should_skip.
